@@ -481,10 +481,36 @@ func (r *c18Run) start() {
 	r.errs = append(r.errs, "activity partition not ready")
 }
 
+// vC18Settle waits (at most 8 s) until the Raft commit index has not moved for 300 ms. Server.Stop() closes the Raft log store
+// without waiting for the activity dispatcher; a dispatcher that is between two entries at that moment reads a closed store and
+// PANICS ("database not open", activity.go dispatch; DESIGN 9.4) - which would kill the harness process, not tell anything about
+// the property. A dispatcher that has caught up is parked on its channels and leaves on shutdown.
+func vC18Settle(s *Server) {
+	defer func() { _ = recover() }()
+	if s == nil {
+		return
+	}
+	r := s.getRaft()
+	if r == nil {
+		return
+	}
+	last, since := uint64(0), time.Now()
+	for dl := time.Now().Add(8 * time.Second); time.Now().Before(dl); time.Sleep(20 * time.Millisecond) {
+		if ci := r.getCommitIndex(); ci != last {
+			last, since = ci, time.Now()
+			continue
+		}
+		if time.Since(since) > 300*time.Millisecond {
+			return
+		}
+	}
+}
+
 func (r *c18Run) stop() {
 	if r.s == nil {
 		return
 	}
+	vC18Settle(r.s)
 	done := make(chan struct{})
 	s := r.s
 	go func() { s.Stop(); close(done) }()
